@@ -92,6 +92,14 @@ def coq_pat(st):
     return '(%s %s)' % ('PEq' if comp == 2 else 'PRe', coq_str(expr))
 
 
+TERMINAL = re.compile(r'''/(?:\\.|[^/\\\n])+/|"(?:\\.|[^"\\\n])*"''')
+
+
+def has_unescaped_quote(text):
+    """a terminal of the grammar text holds a single quote that is not escaped"""
+    return any(re.search(r"(?<!\\)(?:\\\\)*'", m.group(0)) for m in TERMINAL.finditer(text))
+
+
 def render_and_read(tree, name='out_rules'):
     """GramApp.render_rules + reading the from_ast argument back as a Python literal"""
     from rogw.tranp.bin.gram_check import App as GramApp
@@ -183,6 +191,8 @@ def run(ctx: Ctx) -> None:
 
     for i in range(N):
         text = gen_grammar(rnd)
+        if i == 0:
+            text = "entry := /'x/ b\nb := \"it's\"\n"      # the recorded finding, replayed on every run: terminals that hold an unescaped single quote
         if i % 6 == 5:
             # malformed stream: one character dropped or replaced
             k = rnd.randrange(len(text))
@@ -241,7 +251,7 @@ def run(ctx: Ctx) -> None:
             gc = Rules.from_ast(render_and_read(tree))
         except Exception as e:
             gc = None
-            ctx.violation('compile-fails:' + type(e).__name__, 'the rendered rule file cannot be read back', dict(input=dict(grammar=text), impl_result=repr(e)[:300]))
+            ctx.violation('compile-fails:' + ('unescaped-single-quote' if has_unescaped_quote(text) else type(e).__name__), 'the rendered rule file cannot be read back', dict(input=dict(grammar=text), impl_result=repr(e)[:300]))
         if gc is not None and 'entry' in dict(gs) and i % 3 == 0:
             gen = sentences_for(rnd, g, Patterns)
             for _ in range(3):
